@@ -6,19 +6,27 @@ import fvm
 INFO = dict(
  functions=['fiber_signal_init', 'fiber_signal_wait', 'fiber_signal_raise', 'fiber_bounded_channel_create', 'fiber_bounded_channel_send',
             'fiber_bounded_channel_receive', 'fiber_unbounded_channel_send', 'fiber_unbounded_channel_receive',
-            'fiber_unbounded_sp_channel_send', 'fiber_unbounded_sp_channel_receive', 'fiber_multi_channel_send', 'fiber_multi_channel_receive',
+            'fiber_unbounded_sp_channel_send', 'fiber_unbounded_sp_channel_receive', 'fiber_multi_channel_create', 'fiber_multi_channel_send', 'fiber_multi_channel_receive', 'fiber_multi_channel_internal_wait', 'fiber_multi_channel_internal_wake',
             'mpsc_fifo_push', 'mpsc_fifo_trypop', 'spsc_fifo_push', 'spsc_fifo_trypop', 'fiber_manager_do_maintenance'],
- stubs=['contract kernel (see C03)', 'multi channel: fiber_mutex replaced by its C03 contract (abstract mutex)'],
+ stubs=['contract kernel (see C03)', 'E1 multi-channel step: fiber_mutex_lock = havoc of the channel to any state satisfying INV (others ran), fiber_manager_yield = hand-off contract + return as woken, fiber_scheduler_schedule = records the woken fiber, fiber_mutex_unlock = guarantee check', 'sigflag: the message queue of a channel abstracted to one plain word (publish, then raise / reset, then re-check)', 'multi channel: fiber_mutex replaced by its C03 contract (abstract mutex)'],
  assumptions=['assume-guarantee: the runtime contract of C01/C02 holds for yield/schedule', 'x86-TSO mapping of atomics; -O1 IR of clang-14'],
- bounds='signal wait/raise handshake: 1 waiter x 1-2 waits, 1-2 raisers, all interleavings (SC) - decided; channels (queue + signal): capacity 2, 1-2 senders x 1-2 messages, 1 receiver - stretch jobs of the thorough tier, no verdict within 40 min so far: for channels the claim rests on composition (queue correctness = C15/C16, never-lost raise = the signal scenarios)',
+ bounds='multi channel: one send/receive from an arbitrary valid state, capacity 2,4 (8 thorough), <= 2 (4) sleeps per operation, fewer than 2^64-1 messages; channel receive pattern (signal + one-word queue) 1 message, signal initially clear or raised, SC and x86-TSO; signal wait/raise handshake: 1 waiter x 1-2 waits, 1-2 raisers, all interleavings (SC) - decided; channels (queue + signal): capacity 2, 1-2 senders x 1-2 messages, 1 receiver - stretch jobs of the thorough tier, no verdict within 40 min so far: for channels the claim rests on composition (queue correctness = C15/C16, never-lost raise = the signal scenarios)',
  outside='more messages/senders; capacities > 2')
 
 
 def plan(tier, ctx):
     src = ['fiber_mutex.c'] + fvm.KERNEL_SRCS
     j = []
+    # E1: one real multi-channel send/receive from an arbitrary valid channel state (rely/guarantee step)
+    mb = 2 if tier == 'quick' else 4
+    for cp in ((1, 2) if tier == 'quick' else (1, 2, 3)):
+        for h in ('h_send', 'h_receive'):
+            j += pair('e1.mchan.%s.cap%d' % (h, 1 << cp), [VERIF + '/e1/C11/mchan_e1.c'], h, unwind=max((1 << cp) + 2, mb + 2), timeout=600, defines=['MAX_BLOCK=%d' % mb, 'CAP_POW=%d' % cp],
+                      meta={'engine': 'E1 cbmc-src', 'bounds': 'capacity %d; arbitrary channel state (INV) after every lock acquisition; <= %d sleeps per operation' % (1 << cp, mb)})
     j += fvm.config('C11', 'signal_1w1r', 'signal.c', 2, 4, 'sc', srcs=src, defines=['NRAISE=1', 'NWAITS=1'], spec=fvm.kspec(2), bounds='1 wait, 1 raise', timeout=900)
     j += fvm.config('C11', 'signal_1w2r', 'signal.c', 3, 4, 'sc', srcs=src, defines=['NRAISE=2', 'NWAITS=1'], spec=fvm.kspec(3), bounds='1 wait, 2 raisers', timeout=1200)
+    for mm in ('sc', 'tso'):
+        j += fvm.config('C11', 'sigflag', 'sigflag.c', 2, 4, mm, srcs=src, spec=fvm.kspec(2), bounds='channel receive pattern over the real signal, queue abstracted to one word; signal initially clear or RAISED (symbolic); 1 message; %s' % mm, timeout=1500)
     if tier == 'thorough':
         j += fvm.config('C11', 'chan_unbounded_1x1', 'chan.c', 2, 4, 'sc', srcs=src, defines=['KIND=2', 'NSEND=1', 'NMSG=1'], spec=fvm.kspec(2), bounds='unbounded channel, 1 sender x 1', timeout=3600, required=False)
         j += fvm.config('C11', 'mchan_1s1r_3', 'mchan.c', 2, 5, 'sc', srcs=src, defines=['NSEND=1', 'NRECV=1', 'NMSG=3'], spec=fvm.kspec_amutex(2),
